@@ -6,8 +6,17 @@ LG = "Tracked(&mut *l)"
 TL = "Tracked(l): Tracked<&mut L>"
 
 accept = Fn(F, ["impl OsIpcOneShotServer", "accept"], ret="r", extra_params=TL,
-    requires=[Clause("unix.accept/requires.ledger_wf", "old(l).owned.subset_of(old(l).open)")],
+    requires=[Clause("unix.accept/requires.ledger_wf", "old(l).owned.subset_of(old(l).open)"),
+              Clause("unix.accept/requires.server_is_listening", "old(l).listening.contains(self.fd)")],
     ensures=[
+        Clause("unix.accept/ensures.receiver_is_one_connection_taken_from_this_servers_queue",
+               "r matches Ok((rx, _, _, _)) ==> final(l).conn_of.contains_key(cell_val(&rx.fd)) && final(l).conn_of[cell_val(&rx.fd)] == self.fd\n"
+               "&& !old(l).open.contains(cell_val(&rx.fd))", ["C08"]),
+        Clause("unix.accept/ensures.first_message_is_the_first_read_on_that_connection",
+               "r matches Ok((rx, data, channels, regions)) ==> final(l).reads == old(l).reads.push(cell_val(&rx.fd))\n"
+               "&& final(l).got == Some((cell_val(&rx.fd), data@, channels@, regions@))", ["C08"]),
+        Clause("unix.accept/ensures.queued_data_survives_the_clients_exit",
+               "r matches Ok((rx, _, _, _)) ==> final(l).lingering.contains(cell_val(&rx.fd))", ["C08"]),
         Clause("unix.accept/ensures.no_descriptor_left_unowned",
                "no_new_unowned(*old(l), *final(l))", ["C11"]),
         Clause("unix.accept/ensures.receiver_owns_the_connection",
@@ -20,6 +29,8 @@ accept = Fn(F, ["impl OsIpcOneShotServer", "accept"], ret="r", extra_params=TL,
         Rule("B40", r"libc::accept4?\(\s*self\.fd,\s*(?:sockaddr|ptr::null_mut\(\)),\s*(?:sockaddr_len|ptr::null_mut\(\))(?:,\s*([A-Za-z_0-9:| ]+))?,?\s*\)", r"k_accept4(self.fd, 0 | \1, %s)" % LG,
              "accept4 stub over the descriptor ledger (flags kept)", min_count=1),
         AppendArg("B41", r"OsIpcReceiver::from_fd\(", LG, "ownership hand-over recorded in the ledger", min_count=1),
+        AppendArg("B47", r"\brecv\(", LG, "whole-message receive (unit U3) as a stub that logs the descriptor read and what came back", min_count=1),
+        AppendArg("B48", r"make_socket_lingering\(", LG, "setsockopt(SO_LINGER) stub"),
     ],
     safety_props=["C11", "C18"])
 
@@ -29,12 +40,20 @@ server_new = Fn(F, ["impl OsIpcOneShotServer", "new"], ret="r", extra_params=TL,
         Clause("unix.server_new/ensures.no_descriptor_left_unowned", "no_new_unowned(*old(l), *final(l))", ["C11"]),
         Clause("unix.server_new/ensures.server_owns_the_listener",
                "r matches Ok((srv, _)) ==> final(l).owned.contains(srv.fd) && final(l).open.contains(srv.fd)", ["C11", "C08"]),
+        Clause("unix.server_new/ensures.name_is_the_path_the_listening_socket_is_bound_to",
+               "r matches Ok((srv, name)) ==> final(l).listening.contains(srv.fd) && final(l).bound.contains_key(srv.fd)\n"
+               "&& final(l).bound[srv.fd] == string_path(name)", ["C08"]),
+        Clause("unix.server_new/ensures.socket_file_lives_in_the_servers_own_temp_dir",
+               "r matches Ok((srv, name)) ==> parent(string_path(name)) == dir_path(srv._temp_dir.id)", ["C08", "C11"]),
+        Clause("unix.server_new/ensures.failure_leaves_no_rendezvous_behind",
+               "r is Err ==> forall|fd: c_int| #[trigger] final(l).open.contains(fd) && !old(l).open.contains(fd) ==> false", ["C08", "C11"]),
     ],
     hints=[Hint("body:start", "proof { lemma_cloexec_bit(); }")],
     rules=[
         AppendArg("B42", r"libc::socket\(", LG, "socket stub over the descriptor ledger", rename="k_socket", min_count=1),
-        Rule("B43", r"libc::bind\(\s*fd,\s*&sockaddr as \*const _ as \*const sockaddr,\s*len as socklen_t,\s*\)", "k_bind(fd)", "bind stub (any result)", min_count=1),
-        Rule("B44", r"libc::listen\(", "k_listen(", "listen stub (any result)", min_count=1),
+        Rule("B43", r"libc::bind\(\s*(\w+),\s*&(\w+) as \*const _ as \*const sockaddr,\s*(\w+) as socklen_t,?\s*\)", r"k_bind(\1, &\2, \3, %s)" % LG,
+             "bind stub (any result; on success the socket is bound to the path in the sockaddr)", min_count=1),
+        AppendArg("B44", r"libc::listen\(", LG, "listen stub (any result)", rename="k_listen", min_count=1),
         AppendArg("B45", r"libc::close\(", LG, "close stub over the ledger", rename="k_close"),
         Rule("B46", r"OsIpcOneShotServer \{\s*fd,\s*_temp_dir: temp_dir,\s*\}", "mk_server(fd, temp_dir, %s)" % LG,
              "struct literal -> constructor stub that records the ownership hand-over", min_count=1),
@@ -43,18 +62,45 @@ server_new = Fn(F, ["impl OsIpcOneShotServer", "new"], ret="r", extra_params=TL,
     ],
     safety_props=["C11", "C18"])
 
+connect = Fn(F, ["impl OsIpcSender", "connect"], ret="r", extra_params=TL,
+    requires=[Clause("unix.connect/requires.ledger_wf", "old(l).owned.subset_of(old(l).open)")],
+    ensures=[
+        Clause("unix.connect/ensures.no_descriptor_left_unowned", "no_new_unowned(*old(l), *final(l))", ["C11"]),
+        Clause("unix.connect/ensures.sender_is_connected_to_the_named_server",
+               "r matches Ok(s) ==> final(l).connected.contains_key(s.fd) && final(l).connected[s.fd] == string_path(name)\n"
+               "&& final(l).owned.contains(s.fd) && final(l).open.contains(s.fd)", ["C08"]),
+        Clause("unix.connect/ensures.failure_leaves_nothing_behind",
+               "r is Err ==> forall|fd: c_int| #[trigger] final(l).open.contains(fd) && !old(l).open.contains(fd) ==> false", ["C08", "C11"]),
+    ],
+    hints=[Hint("body:start", "proof { lemma_cloexec_bit(); }")],
+    rules=[
+        Rule("D28", r"CString::new\(name\)", "CString::from_string(name)", "CString::new at argument type String", min_count=1),
+        AppendArg("B42", r"libc::socket\(", LG, "socket stub over the descriptor ledger", rename="k_socket", min_count=1),
+        Rule("B49", r"libc::connect\(\s*(\w+),\s*&(\w+) as \*const _ as \*const sockaddr,\s*(\w+) as socklen_t,?\s*\)", r"k_connect(\1, &\2, \3, %s)" % LG,
+             "connect(2) stub (any result)", min_count=1),
+        AppendArg("B45", r"libc::close\(", LG, "close stub over the ledger", rename="k_close"),
+        AppendArg("B51", r"OsIpcSender::from_fd\(", LG, "ownership hand-over recorded in the ledger", min_count=1),
+        Rule("D20", r"libc::AF_UNIX", "libc_af::AF_UNIX", "constant"),
+    ],
+    safety_props=["C11", "C18"])
+
 UNIT = Unit(
     name="u9_ledger",
     prelude=["units/common.rs", "units/u9_ledger.rs"],
-    groups=[("impl OsIpcOneShotServer", [server_new, accept])],
+    groups=[("impl OsIpcOneShotServer", [server_new, accept]), ("impl OsIpcSender", [connect])],
     props=["C11", "C08"],
     prelude_clauses={
         "unix.accept/requires.accepted_descriptor_is_close_on_exec": ["C11"],
         "unix.server_new/requires.socket_is_close_on_exec": ["C11"],
         "unix.server/requires.close_only_raw_open_descriptors": ["C11"],
+        "unix.accept/requires.accepts_on_a_listening_socket": ["C08"],
+        "unix.accept/requires.first_message_awaited_blocking": ["C08"],
+        "unix.server_new/requires.listen_queue_holds_a_client_that_connects_before_accept": ["C08"],
+        "unix.server_new/requires.listens_on_the_bound_socket": ["C08"],
     },
     kernel_clauses=[
         "socket/accept4 return a descriptor not in use before, or fail; bind, listen, setsockopt, mkdtemp may fail arbitrarily",
-        "a descriptor handed to OsIpcReceiver::from_fd / the OsIpcOneShotServer literal is closed by that value's Drop (Kani ledger for the receiver)",
+        "a descriptor handed to OsIpcReceiver::from_fd / OsIpcSender::from_fd / the OsIpcOneShotServer literal is closed by that value's Drop (Kani ledger for receiver and sender)",
+        "rendezvous (C08): a client that connect(2)s to the path a listening socket is bound to lands in that socket's queue (backlog >= 1) whether accept has been called or not; accept4 takes the oldest queued connection; data queued on a connection survives the client's exit; tempfile's TempDir is a fresh, distinctly named directory which its Drop removes with the socket file inside; paths fit sun_path",
     ],
 )
